@@ -395,6 +395,57 @@ def _rename_method_calls(node, renamed_last):
             _rename_method_calls(v, renamed_last)
 
 
+def _normalise_impl_paths(text):
+    """rustc names a method of an impl block that sits in another module than its type `module::<impl Type>::method` (inherent) or
+    `module::<impl Trait for Type>::method`. Where the block sits is incidental: both are rewritten to the form used when it sits next
+    to the type, `Type::method` / `<Type as Trait>::method`."""
+    out = []
+    i = 0
+    marker = "::<impl "
+    while True:
+        j = text.find(marker, i)
+        if j < 0:
+            out.append(text[i:])
+            break
+        # the module prefix: identifier characters and `::` before the marker
+        k = j
+        while k > i and (text[k - 1].isalnum() or text[k - 1] in "_:"):
+            k -= 1
+        # the matching `>` of `<impl ..`
+        depth, m = 0, j + 2
+        while m < len(text):
+            c = text[m]
+            if c == "<":
+                depth += 1
+            elif c == ">":
+                depth -= 1
+                if depth == 0:
+                    break
+            elif c == '"':
+                m = -1
+                break
+            m += 1
+        if m < 0 or m >= len(text):
+            out.append(text[i:j + len(marker)])
+            i = j + len(marker)
+            continue
+        inner = text[j + len(marker):m]
+        if text[k:j].split("::", 1)[0] not in ("model", "reader", "utils", "error", "zeep_lib"):
+            # an impl of another crate (`core::str::<impl str>::len`): left as rustc prints it
+            out.append(text[i:m + 1])
+            i = m + 1
+            continue
+        if " for " in inner:
+            tr, ty = inner.split(" for ", 1)
+            repl = "<" + ty + " as " + tr + ">"
+        else:
+            repl = inner
+        out.append(text[i:k])
+        out.append(repl)
+        i = m + 1
+    return "".join(out)
+
+
 def _rewrite_paths(text, mapping, prefix=""):
     import re
     for old_ in sorted(mapping, key=len, reverse=True):
@@ -407,6 +458,8 @@ class Crate:
     def __init__(self, path, moved=None, members=None):
         with open(path) as f:
             raw = f.read()
+        if "::<impl " in raw:
+            raw = _normalise_impl_paths(raw)
         d = json.loads(raw)
         self.moved = moved if moved is not None else (_moved_items(d) if d.get("crate") == "zeep_lib" else {})
         if self.moved:
